@@ -5,6 +5,8 @@ package c08
 import (
 	"errors"
 	"fmt"
+	"os"
+	"time"
 
 	bpmn "github.com/olive-io/bpmn/v2"
 	"github.com/olive-io/bpmn/v2/verifrt"
@@ -269,6 +271,125 @@ func body(hists []history, defRetries string) func() {
 	}
 }
 
+// racing first answers: two or three different answers to one request are issued from separate
+// goroutines at once (which of them is first is the scheduler's choice), optionally racing the
+// request's time-out (task definition timeout="1h", virtual clock advanced from its own
+// goroutine). Exactly one of them must take effect, completely: the observable outcome equals
+// the outcome of one candidate alone.
+func raceBody(sets [][]do, withTimeout bool) func() {
+	g := build("")
+	if withTimeout {
+		g.ID = "c08timeout"
+		g.Find("T").Timeout = "1h"
+	}
+	defs := g.Parse()
+	return func() {
+		cands := sets[verifrt.Choose(len(sets))]
+		fail := func(clause, format string, a ...any) {
+			h.Fail("C08/race/"+clause, "answers %v racing (timeout %v): %s", cands, withTimeout, fmt.Sprintf(format, a...))
+		}
+		r := drv.Open(g, defs, drv.OpenOpts{})
+		var w *drv.Wait
+		r.AfterStart = func() { w = r.WaitComplete(nil) }
+		r.StartAll()
+		verifrt.WaitIdle()
+		p := r.Pending("T")
+		if p == nil {
+			fail("requested", "T was not requested")
+			return
+		}
+		returned := 0
+		p.Answered = true
+		// which call is issued first is an environment choice (the default schedule favours the
+		// goroutine started first)
+		clockFirst := withTimeout && verifrt.Choose(2) == 1
+		if clockFirst {
+			go verifrt.Advance(time.Hour)
+		}
+		for _, d := range cands {
+			d := d
+			go func() { p.T.Do(d.options()...); returned++ }()
+		}
+		if withTimeout && !clockFirst {
+			go verifrt.Advance(time.Hour)
+		}
+		verifrt.WaitIdle()
+		if returned != len(cands) {
+			fail("do-returns", "%d of %d Do calls returned; blocked: %v", returned, len(cands), verifrt.LiveEnvGoroutines())
+			return
+		}
+		// what each candidate alone would give: (r stored?, r value, error traces, downstream)
+		type outcome struct {
+			stored, val bool
+			errs        int
+			next        string
+		}
+		expect := func(d do) outcome {
+			switch d.Kind {
+			case "ok":
+				if d.R {
+					return outcome{true, true, 0, "A"}
+				}
+				return outcome{true, false, 0, "B"}
+			case "exit":
+				return outcome{false, false, 1, ""}
+			}
+			return outcome{false, false, 1, "B"} // err, skip, time-out: error trace, the token goes on
+		}
+		vars := r.Vars()
+		got := outcome{errs: len(r.Errors)}
+		if v, ok := vars["r"]; ok {
+			got.stored = true
+			got.val, _ = v.(bool)
+		}
+		pend := r.PendingIDs()
+		if len(pend) > 1 {
+			fail("one-effective-answer", "more than one downstream request: %v", pend)
+			return
+		}
+		if len(pend) == 1 {
+			got.next = pend[0]
+		}
+		all := append([]do{}, cands...)
+		if withTimeout {
+			all = append(all, do{Kind: "timeout"})
+		}
+		match := false
+		for _, d := range all {
+			if expect(d) == got {
+				match = true
+			}
+		}
+		if !match {
+			fail("one-effective-answer", "observed r stored=%v value=%v, %d error traces %v, downstream %q: not the outcome of any single candidate", got.stored, got.val, got.errs, r.Errors, got.next)
+			return
+		}
+		if os.Getenv("VERIF_DEBUG") != "" {
+			verifrt.Log("outcome %+v", got)
+		}
+		if r.Requests("T") != 1 {
+			fail("retry-requests", "T requested %d times", r.Requests("T"))
+			return
+		}
+		if got.next != "" {
+			r.Answer(r.Pending(got.next))
+			verifrt.WaitIdle()
+		}
+		if withTimeout {
+			// a time-out after the decision has no effect
+			verifrt.Advance(2 * time.Hour)
+			verifrt.WaitIdle()
+			if len(r.Errors) != got.errs || len(r.PendingIDs()) != 0 {
+				fail("one-effective-answer", "the time-out fired after the request had been decided: errors %v pending %v", r.Errors, r.PendingIDs())
+				return
+			}
+		}
+		if w == nil || !w.Returned || !w.Result {
+			fail("completes", "no token remains but WaitUntilComplete has not returned true")
+		}
+	}
+}
+
 func init() {
 	h.Register("C08", func(tier string) ([]*h.Scn, []*h.Plain) {
 		var out []*h.Scn
@@ -318,6 +439,31 @@ func init() {
 		if thorough {
 			add("all", all, 1, 16)
 			add("concurrent", conc, 2, 16)
+		}
+		sets := [][]do{
+			{{Kind: "ok", R: true}, {Kind: "ok", R: false}},
+			{{Kind: "ok", R: true}, {Kind: "exit"}},
+			{{Kind: "ok", R: false}, {Kind: "skip"}},
+			{{Kind: "err"}, {Kind: "ok", R: true}},
+			{{Kind: "ok", R: true}, {Kind: "ok", R: false}, {Kind: "exit"}},
+		}
+		for _, to := range []bool{false, true} {
+			bounds := []int{0, 1}
+			if thorough {
+				bounds = append(bounds, 2)
+			}
+			for _, d := range bounds {
+				ss := sets
+				if to {
+					ss = append([][]do{{{Kind: "ok", R: true}}, {{Kind: "exit"}}}, sets[:2]...)
+				}
+				sc := &h.Scn{Name: fmt.Sprintf("C08/race/timeout=%v/d%d", to, d), Body: raceBody(ss, to), Opts: verifrt.Options{Bound: d, UseCache: true}}
+				sc.Weight = len(ss) * (1 + 1000*d*d)
+				if d >= 1 {
+					sc.Split = 4 * d
+				}
+				out = append(out, sc)
+			}
 		}
 		return out, nil
 	})
